@@ -92,6 +92,14 @@ fn canon(s: &Snap) -> Canon {
     Canon { items, ints }
 }
 
+fn ints_hash(xs: &[i32]) -> u64 {
+    let mut h = FNV_OFFSET;
+    for x in xs {
+        h = fnv_bytes(h, &x.to_le_bytes());
+    }
+    h
+}
+
 struct Sent {
     snap: Snap,
     canon: Canon,
@@ -195,10 +203,10 @@ impl R {
         } else {
             0
         };
-        self.last_hint = format!("ok {} {} {} {} {}", serial, crc, c.items.len(), base_serial, to_hex(&buf));
+        self.last_hint = format!("ok {} {} {} {} {} {}", serial, crc, c.items.len(), ints_hash(&c.ints), base_serial, to_hex(&buf));
         self.sent.insert(tick, Sent { snap: keep, canon: c });
         o.count(&format!("parts-{:02}", parts.min(33)));
-        format!("sent {} base={} len={} parts={} crc={} first={}", tick, delta_tick, buf.len(), parts, crc, first)
+        format!("sent {} base={} len={} parts={} crc={} first={} h={}", tick, delta_tick, buf.len(), parts, crc, first, fnv_bytes(FNV_OFFSET, &buf))
     }
 
     fn deliver(&mut self, i: usize, crc_delta: i32, o: &mut Oracle) -> String {
@@ -237,7 +245,7 @@ impl R {
             }
             Ok(Some(s)) => {
                 let c = canon(s);
-                line = format!("ok snap tick={} crc={} items={}", tick, s.crc(), c.items.len());
+                line = format!("ok snap tick={} crc={} items={} sh={}", tick, s.crc(), c.items.len(), ints_hash(&c.ints));
                 accepted = Some(c);
                 is_err = false;
             }
@@ -582,7 +590,11 @@ struct Sim {
     o: Oracle,
 }
 
-fn gen_session(rng: &mut Rng, w: &mut dyn Write, steps: usize, style: u64, mixed: bool) {
+pub fn new_runner() -> Box<dyn Runner> {
+    Box::new(R::new())
+}
+
+pub fn gen_session(rng: &mut Rng, w: &mut dyn Write, steps: usize, style: u64, mixed: bool, wipe: bool) {
     let mut sim = Sim { r: R::new(), o: Oracle::new() };
     writeln!(w, "{}", if mixed { "new mixed-uuid-sizes" } else { "new" }).unwrap();
     sim.r.mixed = mixed;
@@ -704,6 +716,13 @@ fn gen_session(rng: &mut Rng, w: &mut dyn Write, steps: usize, style: u64, mixed
             writeln!(w, "da {}", j).unwrap();
             sim.r.run(&["da", &j.to_string()], &mut sim.o);
         }
+        if wipe && rng.chance(1, 8) {
+            // an acknowledgement newer than everything the sender has: the storage is emptied and
+            // the next builder comes from the free list
+            let v = (tick + rng.range(1, 3)).min(i32::MAX as i64);
+            writeln!(w, "ra {}", v).unwrap();
+            sim.r.run(&["ra", &v.to_string()], &mut sim.o);
+        }
         if rng.chance(1, 25) {
             // an acknowledgement for something else entirely
             let v = match rng.below(4) {
@@ -734,11 +753,11 @@ impl Domain for D {
         let sessions = if thorough { 800 } else { 120 };
         for s in 0..sessions {
             let steps = if s % 10 == 9 { 170 } else { rng.range(5, 40) as usize };
-            gen_session(&mut rng, w, steps, s as u64, false);
+            gen_session(&mut rng, w, steps, s as u64, false, s % 6 == 5);
         }
         // UUID types of different sizes: reaches D25 (open finding)
         for s in 0..(if thorough { 60 } else { 8 }) {
-            gen_session(&mut rng, w, 30, s as u64, true);
+            gen_session(&mut rng, w, 30, s as u64, true, s % 3 == 2);
         }
     }
 }
